@@ -815,12 +815,12 @@ func c20generate(c *h.Ctx, yield func(*h.Case)) {
 		one("lower-table", "c20 lower "+c20hex(sb.String()))
 	}
 	// ---- the grammar of near-valid addresses and arbitrary bytes
-	for i := 0; i < c.Pick(45000, 700000); i++ {
+	for i := 0; i < c.Pick(150000, 700000); i++ {
 		s, kind := g.address()
 		addr("addr-"+kind, s)
 	}
 	// ---- host names, IP literals and host:port strings on their own
-	for i := 0; i < c.Pick(9000, 120000); i++ {
+	for i := 0; i < c.Pick(30000, 120000); i++ {
 		switch g.n(5) {
 		case 0:
 			one("hostname", "c20 hostname "+c20hex(g.hostname()))
@@ -846,7 +846,7 @@ func c20generate(c *h.Ctx, yield func(*h.Case)) {
 		}
 	}
 	// ---- listen addresses: server address x listen override
-	for i := 0; i < c.Pick(6000, 80000); i++ {
+	for i := 0; i < c.Pick(20000, 80000); i++ {
 		a := g.goodAddress()
 		class := "listen-valid"
 		if g.n(5) == 0 {
@@ -856,7 +856,7 @@ func c20generate(c *h.Ctx, yield func(*h.Case)) {
 		one(class, fmt.Sprintf("c20 listen %s %s", c20hex(a), c20hex(g.listenAddr())))
 	}
 	// ---- websocket host:port: server address x global x explicit URL
-	for i := 0; i < c.Pick(6000, 80000); i++ {
+	for i := 0; i < c.Pick(20000, 80000); i++ {
 		a := g.goodAddress()
 		class := "ws-valid"
 		if g.n(6) == 0 {
